@@ -79,11 +79,12 @@ MODULES = {
 # translated: they are function parameters of the generated definitions ("opaque", see py2coq.py).
 _SPARSE_ARGS = {"ind1": VZ, "data1": V, "ind2": VZ, "data2": V, "n_features": I, "p": F}
 _SPARSE_OPAQUE = {"arr_union": ([VZ, VZ], VZ), "arr_intersect": ([VZ, VZ], VZ)}
-_SPARSE_FNS = ["sparse_sum", "sparse_diff", "sparse_mul", "sparse_euclidean", "sparse_manhattan", "sparse_chebyshev", "sparse_minkowski",
+# `norm` is umap.utils.norm, which sparse.py imports (`imports` below): translated into Src_sparse.v from the current umap/utils.py.
+_SPARSE_FNS = ["norm", "sparse_sum", "sparse_diff", "sparse_mul", "sparse_euclidean", "sparse_manhattan", "sparse_chebyshev", "sparse_minkowski",
                "sparse_hamming", "sparse_canberra", "sparse_bray_curtis", "sparse_jaccard", "sparse_matching", "sparse_dice",
-               "sparse_kulsinski", "sparse_rogers_tanimoto", "sparse_sokal_michener", "sparse_sokal_sneath", "sparse_hellinger"]
+               "sparse_kulsinski", "sparse_rogers_tanimoto", "sparse_sokal_michener", "sparse_sokal_sneath", "sparse_hellinger", "sparse_cosine", "sparse_correlation"]
 MODULES["sparse"] = {
-    "path": "umap/sparse.py", "functions": _SPARSE_FNS,
+    "path": "umap/sparse.py", "functions": _SPARSE_FNS, "imports": {"norm": ("umap.utils", "umap/utils.py")},
     "sigs": {f: {"args": _SPARSE_ARGS, "fuel": "ind1.shape[0] + ind2.shape[0]", "opaque": _SPARSE_OPAQUE} for f in _SPARSE_FNS},
     "files": ["L_sparse.v", "K_sparse.v"], "also": ["distances"],
     "deps": ["model/M_sparse.v", "thm/T_sparse.v", "thm/T_sparse_metrics.v", "thm/T_sparse_corr.v", "thm/T_sparse_link.v", "prop/P_C13.v"],
@@ -96,6 +97,46 @@ MODULES["umap_update"] = {
     "path": "umap/umap_.py", "functions": ["init_update"],
     "sigs": {"init_update": {"args": {"current_init": M, "n_original_samples": I, "indices": MZ}}},
     "files": ["L_update.v"], "deps": ["thm/T_link_arr.v", "thm/T_link_mat.v", "model/M_update.v"],
+}
+
+# submatrix (utils.py, C20): the gather `submat[i, j] = dmat[i, indices_col[i, j]]` that prunes a precomputed distance table to the
+# kNN columns.  Its own module (generated file Src_utils_submatrix.v) so that the cache key of `utils` (C07) stays untouched.
+MODULES["utils_submatrix"] = {
+    "path": "umap/utils.py", "functions": ["submatrix"],
+    "sigs": {"submatrix": {"args": {"dmat": M, "indices_col": MZ, "n_neighbors": I}}},
+    "files": ["L_submatrix.v"], "deps": ["thm/T_link_arr.v", "thm/T_link_mat.v", "thm/T_link_fill.v", "model/M_knnparam.v", "model/M_submatrix.v"],
+}
+
+# init_transform (umap_.py, C10): result[i, d] += weights[i, j] * embedding[indices[i, j], d] into a fresh np.zeros matrix.
+MODULES["umap_transform"] = {
+    "path": "umap/umap_.py", "functions": ["init_transform"],
+    "sigs": {"init_transform": {"args": {"indices": MZ, "weights": M, "embedding": M}}},
+    "files": ["L_transform.v"], "deps": ["thm/T_link_arr.v", "thm/T_link_mat.v", "thm/T_link_fill.v", "model/M_transform.v"],
+}
+
+# reprocess_row / reset_local_metrics (umap_.py, C18): the bisection on the exponent that brings a row's total to log2(k), applied
+# to every CSR row through slices `data[indptr[i]:indptr[i + 1]]`.  k and n_iters are ordinary parameters of the generated
+# definition (their defaults 15, 32 are the generated definitions src_default_reprocess_row_k / _n_iters).
+MODULES["umap_reprocess"] = {
+    "path": "umap/umap_.py", "functions": ["reprocess_row", "reset_local_metrics"],
+    "const_names": ["SMOOTH_K_TOLERANCE", "NPY_INFINITY"],
+    "sigs": {"reprocess_row": {"args": {"probabilities": V, "k": I, "n_iters": I}},
+             "reset_local_metrics": {"args": {"simplicial_set_indptr": VZ, "simplicial_set_data": V}}},
+    "files": ["L_reprocess.v"], "deps": ["thm/T_link_arr.v", "thm/T_link_mat.v", "thm/T_link_fill.v", "model/M_combine.v", "model/M_supervised.v"],
+}
+
+# general_sset_union / general_sset_intersection (umap/sparse.py, C18): the kernels behind `a + b`, `a * b`, `a - b` of fitted models.
+# CSR arrays of the two operands (int arrays indptr / indices, float array data) and the COO skeleton of the result; result_val is
+# stored into and therefore returned.  right_complement / mix_weight have default values in the source: they are ordinary parameters
+# of the generated definition; the default values are the generated definitions src_general_sset_intersection_default_* ("defaults").
+# Its own module (generated file Src_sparse_sset.v) so that the cache keys of "sparse" stay untouched.
+_SSET_ARGS = {"indptr1": VZ, "indices1": VZ, "data1": V, "indptr2": VZ, "indices2": VZ, "data2": V, "result_row": VZ, "result_col": VZ,
+              "result_val": V, "right_complement": B, "mix_weight": F}
+MODULES["sparse_sset"] = {
+    "path": "umap/sparse.py", "functions": ["general_sset_union", "general_sset_intersection"],
+    "sigs": {"general_sset_union": {"args": _SSET_ARGS}, "general_sset_intersection": {"args": _SSET_ARGS, "defaults": True}},
+    "files": ["L_sset.v", "K_sset.v"], "eval": "E_sset.v",
+    "deps": ["model/M_supervised.v", "model/M_combine.v", "model/M_csr.v", "thm/T_supervised.v", "thm/T_combine.v", "thm/T_csr.v"],
 }
 
 
@@ -163,9 +204,14 @@ def prepare(module, timeout=600):
     cfg = MODULES[module]
     res = LinkResult()
     src_path = os.path.join(REPO, cfg["path"])
-    text, report = py2coq.translate_module(src_path, cfg["functions"], cfg.get("sigs"), cfg.get("consts"), const_names=cfg.get("const_names"))
+    # `imports`: {name: (python module, file relative to the tree)}: functions imported from another file of the tree (py2coq.py)
+    imports = {k: (pm, os.path.join(REPO, f)) for k, (pm, f) in cfg.get("imports", {}).items()}
+    text, report = py2coq.translate_module(src_path, cfg["functions"], cfg.get("sigs"), cfg.get("consts"), const_names=cfg.get("const_names"),
+                                           **({"imports": imports} if imports else {}))
     # the header names the path; keep the key independent of where the tree lives
     text = text.replace(src_path, cfg["path"])
+    for k, (pm, f) in cfg.get("imports", {}).items():
+        text = text.replace(os.path.join(REPO, f), f)
     res.translated, res.src_text = report, text
     # `also`: other modules whose generated source and link files this module's corollaries need in scope (e.g. sparse metric
     # = dense metric: both translated sources); they are generated and compiled first, in the same directory
